@@ -1,0 +1,8 @@
+//go:build verif
+
+package NoKV
+
+import "github.com/feichai0017/NoKV/lsm"
+
+// VerifLSM exposes the LSM tree to the external verification harness.
+func (db *DB) VerifLSM() *lsm.LSM { return db.lsm }
